@@ -68,7 +68,15 @@ class NS(object):
         return self._ex.term_of(v, self._st)
     def has_field(self, name, fld):
         return fld in self._ex.deref(self._frame[name], self._st).fields
-    def val(self, name): return self._frame[name]
+    def val(self, name):
+        v = self._frame[name]
+        gty = self._ex.loop_list_types.get(name)
+        if isinstance(v, NoneV) and gty is not None and gty.kind == 'Opt':
+            inner = gty.args[0]
+            return Opt(z3.BoolVal(True), wrap(inner, z3.Const('none!' + name, inner.sort())))
+        if gty is not None and gty.kind == 'Opt' and not isinstance(v, Opt):
+            return Opt(z3.BoolVal(False), v)
+        return v
 
 
 class Exec(object):
@@ -99,6 +107,7 @@ class Exec(object):
                        function=self.fname, where='%s:%d-%d' % (self.fi.file, self.fi.lines[0], self.fi.lines[1]),
                        carries_property=carries, unfold_depth=self.contract.unfold_depth)
         o.abstract_nonlinear = getattr(self.contract, 'abstract_nonlinear', False)
+        o.instantiate_int_foralls = getattr(self.contract, 'instantiate_int_foralls', False)
         self.obls.append(o)
         return o
 
@@ -448,17 +457,20 @@ class ExprMixin(object):
         return Text(cat(*docs))
 
     def ev_BoolOp(self, n, st):
-        # and/or return operands; we support them in boolean positions and for simple scalars
-        results = [(None, st)]
+        """and/or in boolean positions.  Operands are evaluated left to right; each later operand is evaluated in a scratch
+        state that assumes the earlier ones were true (and) / false (or), with optional variables refined accordingly —
+        Python's short-circuit semantics for pure operands."""
         isand = isinstance(n.op, ast.And)
         out = []
-        def go(i, s, acc):
-            for v, s2 in self.ev(n.values[i], s):
+        def go(i, s_eval, acc):
+            for v, s2 in self.ev(n.values[i], s_eval):
                 t = self.truth(v, s2)
                 if i == len(n.values) - 1:
-                    out.append((Sc(z3.And(*(acc + [t])) if isand else z3.Or(*(acc + [t])), 'bool'), s2)); continue
-                # short circuit: later operands are only evaluated when needed; they are pure in the handled subset
-                go(i + 1, s2, acc + [t])
+                    out.append((Sc(z3.And(*(acc + [t])) if isand else z3.Or(*(acc + [t])), 'bool'), st)); continue
+                s3 = s2.copy()
+                s3.pc.append(t if isand else z3.Not(t))
+                self.refine_optional(n.values[i], s3, isand)
+                go(i + 1, s3, acc + [t])
         go(0, st, [])
         return out
 
@@ -1141,6 +1153,11 @@ class StmtMixin(object):
     def havoc(self, st, names, cell_ids, tag):
         for nm in names:
             v = st.env.get(nm)
+            gty = self.loop_list_types.get(nm)
+            if v is not None and gty is not None and gty.kind == 'Opt':
+                inner = gty.args[0]
+                st.env[nm] = Opt(fresh(BoolS, nm + '?none' + tag), wrap(inner, fresh(inner.sort(), nm + tag)))
+                continue
             if v is None or isinstance(v, Ref): continue
             st.env[nm] = self.havoc_value(v, nm + tag)
         for cid in cell_ids:
@@ -1332,8 +1349,11 @@ class CallMixin(object):
 
     def call_value(self, f, args, kw, st, node=None):
         """-> [(value, state)]; raising paths appended to self._raises"""
+        fref = f
         f = self.deref(f, st) if not isinstance(f, BoundMethod) else f
         if isinstance(f, Dual): f = f.fn
+        if isinstance(f, Rec):      # callable object with a known class
+            return self.call_method(fref, '__call__', args, kw, st, node)
         if isinstance(f, Builtin): return self.call_builtin(f.name, args, kw, st, node)
         if isinstance(f, FuncV): return self.call_function(f.fi, args, kw, st, node=node)
         if isinstance(f, Closure):
@@ -1430,6 +1450,9 @@ class CallMixin(object):
             o, nm = d
             if isinstance(o, FnV) and isinstance(nm, PyStr) and nm.s in ('deriv', 'deriv2'):
                 return [(Sc((has_deriv if nm.s == 'deriv' else has_deriv2)(o.z), 'bool'), st)]
+            if isinstance(o, Rec) and isinstance(nm, PyStr):
+                has = nm.s in o.fields or o.module.find_method(o.cls, nm.s) is not None
+                return [(Sc(z3.BoolVal(bool(has)), 'bool'), st)]
             raise Unsupported('hasattr(%r, %r)' % (o, nm))
         if name == 'isinstance':
             raise Unsupported('isinstance')
@@ -1693,7 +1716,11 @@ class CallMixin(object):
             st.cells[v.id] = self.havoc_value(st.cells[v.id], '%s@%s' % (nm, fi.qualname))
         post_state = st; frame = post_env
         res_v, res_z = NONE, None
-        if c.result is not None and c.result.kind != 'None':
+        if c.result is not None and c.result.kind == 'Opt':
+            inner = c.result.args[0]
+            res_v = Opt(fresh(BoolS, 'res?none_' + fi.qualname.split('.')[-1]), wrap(inner, fresh(inner.sort(), 'res_' + fi.qualname.split('.')[-1])))
+            res_z = res_v
+        elif c.result is not None and c.result.kind != 'None':
             res_z = fresh(c.result.sort(), 'res_' + fi.qualname.split('.')[-1])
             res_v = wrap(c.result, res_z)
         ns_post = NS(self, post_state, frame=frame)
@@ -1709,6 +1736,7 @@ class CallMixin(object):
             self._raises.append(Outcome('raise', s_r, ExcV('<any>', origin=fi.qualname)))
             st.pc.append(z3.Not(rz))
         st.pc += c.ensures(ns_post, ns_pre, res_z)
+        if c.names_result is not None: st.pc += c.names_result(ns_post, res_z)
         return [(res_v, st)]
 
     def coerce(self, v, ty, st, nm):
@@ -1723,6 +1751,21 @@ class CallMixin(object):
         if k == 'Real' and isinstance(d, Sc) and d.py in ('int', 'bool'): return Sc(self.as_real(d), 'float')
         if k == 'Fn' and not isinstance(d, FnV): return FnV(self.as_fn(d, st))
         if k == 'Obj' and isinstance(d, Rec): return self.rec_to_obj(d, st)
+        if k == 'Obj' and isinstance(d, Obj) and d.cls != ty.args[0]:
+            base = ty.args[0]
+            chain, c = [], d.cls
+            while c is not None and c != base:
+                decl = self.reg.classes.get(c); c = decl.bases[0] if decl and decl.bases else None
+            if c != base: raise Unsupported('%s is not a subclass of %s' % (d.cls, base))
+            # the same object seen through its base class: fields of the base view equal the fields of the object
+            up = z3.Function('as_%s_from_%s' % (base, d.cls), ObjSort(d.cls), ObjSort(base))(d.z)
+            bd = self.reg.classes.get(base)
+            while bd is not None:
+                for fname, fty in bd.fields.items():
+                    if fty.kind in ('Opt', 'Dict', 'FnOrDict'): continue
+                    st.pc.append(field(base, fname, fty.sort())(up) == field(d.cls, fname, fty.sort())(d.z))
+                bd = self.reg.classes.get(bd.bases[0]) if bd.bases else None
+            return Obj(up, base)
         if k == 'List' and isinstance(d, (PyList, Tup)):
             ety = ty.args[0]
             if not d.items: return SeqV(z3.Empty(z3.SeqSort(ety.sort())), ety)
@@ -1824,7 +1867,12 @@ class Executor(Exec, ExprMixin, StmtMixin, CallMixin):
                 res_z = None
                 if c.result is not None and c.result.kind != 'None':
                     vd = self.deref(val, o.state)
-                    if c.result.kind == 'Real' and isinstance(vd, Sc): res_z = self.as_real(vd)
+                    if c.result.kind == 'Opt':
+                        inner = c.result.args[0]
+                        if isinstance(vd, NoneV): res_z = Opt(z3.BoolVal(True), wrap(inner, fresh(inner.sort(), 'none')))
+                        elif isinstance(vd, Opt): res_z = vd
+                        else: res_z = Opt(z3.BoolVal(False), vd)
+                    elif c.result.kind == 'Real' and isinstance(vd, Sc): res_z = self.as_real(vd)
                     elif c.result.kind == 'Fn': res_z = self.as_fn(val, o.state)
                     elif c.result.kind == 'Obj' and isinstance(vd, Rec): res_z = self.rec_to_obj(vd, o.state).z
                     else: res_z = unwrap(vd)
